@@ -218,8 +218,9 @@ impl FormatStringParser<'_> {
             // All the characters are digits, but the number may still be too
             // large to be a width.
             let width = &start[0..digits];
-            match width.parse() {
-                Ok(width) => Ok(Some(width)),
+            // (the formatting machinery takes widths up to u16::MAX)
+            match width.parse::<u16>() {
+                Ok(width) => Ok(Some(usize::from(width))),
                 Err(_) => Err(format!("Invalid field width: {width}").into()),
             }
         } else {
